@@ -1,7 +1,7 @@
 import PqVerif.Driver.All
 open Pq.Driver
 
-def handlers : List Handler := [combHandler, exprHandler, engineHandler, programHandler, gaussHandler, gaussRepHandler, kernelHandler, rngHandler, indexHandler, fockRepHandler, samplerHandler, fermiHandler, dualRailHandler, clementsHandler]
+def handlers : List Handler := [combHandler, exprHandler, engineHandler, programHandler, gaussHandler, gaussRepHandler, kernelHandler, rngHandler, indexHandler, fockRepHandler, samplerHandler, fermiHandler, dualRailHandler, clementsHandler, hafEdgesHandler]
 
 def step (line : String) : String :=
   let toks := (line.trimAscii.toString.splitOn " ").filter (· ≠ "")
